@@ -49,7 +49,9 @@ G_LIST = {"<start>": ["<list>"], "<list>": ["<item>", "<item>,<list>"],
           "<item>": ["<num>", "(<list>)"], "<num>": ["<digit>", "<digit><num>"],
           "<digit>": ["0", "1", "2", "3"]}
 G_WIDE = {"<start>": ["<row>"], "<row>": ["<c>" * 30, "<c><c>"], "<c>": ["0", "1", "<e>"], "<e>": ["x"]}
-GRAMMARS = {"assgn": G_ASSGN, "block": G_BLOCK, "list": G_LIST, "wide": G_WIDE}
+# recursive nonterminal with real nesting AND repeated identical subtrees (a+b+a, ((1)))
+G_EXPR = {"<start>": ["<expr>"], "<expr>": ["(<expr>)", "<term>+<expr>", "<term>"], "<term>": ["1", "a", "b"]}
+GRAMMARS = {"assgn": G_ASSGN, "block": G_BLOCK, "list": G_LIST, "wide": G_WIDE, "expr": G_EXPR}
 # only for known-finding witnesses
 G_EPS = {"<start>": ["<a>"], "<a>": ["<c><b>"], "<c>": ["", "y"], "<b>": ["z"]}
 WITNESS_GRAMMARS = dict(GRAMMARS, eps=G_EPS)
@@ -71,6 +73,9 @@ MEXPRS = {
              ("<item>", ["(", ("bind", "l", "<list>"), ")"]),
              ("<num>", [("bind", "d", "<digit>"), ("bind", "n", "<num>")]),
              ("<list>", [("bind", "h", "<item>"), [",", "<list>"]])],
+    "expr": [("<expr>", ["(", ("bind", "e", "<expr>"), ")"]),
+             ("<expr>", [("bind", "t", "<term>"), "+", ("bind", "e", "<expr>")]),
+             ("<expr>", [("bind", "t", "<term>"), ["+", "<expr>"]])],
     "wide": [("<row>", [("bind", "p", "<c>"), ("bind", "q", "<c>")]),
              ("<c>", [("bind", "e", "<e>")])],
 }
@@ -121,10 +126,29 @@ def rand_derivation(rng, cg, md, nt, depth):
 # --------------------------------------------------------------------------
 # formula AST (own) -> isla objects / concrete syntax
 # --------------------------------------------------------------------------
-LITS = ["x", "y", "0", "1", "a", "", "x := 1", "da;", "{}", "12", "(0)", "00"]
+LITS = ["x", "y", "0", "1", "a", "", "x := 1", "da;", "{}", "12", "(0)", "00", "b", "(1)", "a+b"]
 PRED2 = ["before", "after", "inside", "same_position", "different_position", "direct_child", "consecutive"]
 OPS = ["EQ", "GE", "LE", "GT", "LT"]
 CMPS = [("CEq", "="), ("CLt", "<"), ("CLe", "<="), ("CGt", ">"), ("CGe", ">=")]
+
+
+# per grammar: nonterminal -> counts of that nonterminal observed in the generated trees (filled by run())
+COUNT_HINT = {}
+
+
+def recursive_nts(g):
+    """nonterminals that can derive themselves (needle classes for which nested occurrences exist)"""
+    cg = canonical(g)
+    reach = {k: {s for alt in alts for s in alt if L.is_nonterminal(s)} for k, alts in cg.items()}
+    changed = True
+    while changed:
+        changed = False
+        for k in reach:
+            new = set().union(*[reach[x] for x in reach[k]]) if reach[k] else set()
+            if not new <= reach[k]:
+                reach[k] |= new
+                changed = True
+    return [k for k in nonterminals(g) if k in reach[k]]
 
 
 def gen_atom(rng, g, scope):
@@ -150,7 +174,16 @@ def gen_atom(rng, g, scope):
     if r < 0.90:
         w = rng.choice(vs)
         return ("sp", "level", [("str", rng.choice(OPS)), ("str", rng.choice(nts)), ("var", v), ("var", w)])
-    return ("count", v, rng.choice(nts), str(rng.randint(0, 4)))
+    # count: prefer recursive needles; the target is near the real number of occurrences (nested +
+    # sibling ones) so that an off-by-nesting count changes the verdict
+    rec = recursive_nts(g)
+    needle = rng.choice(rec) if rec and rng.random() < 0.6 else rng.choice(nts)
+    hint = COUNT_HINT.get(id(g), {}).get(needle)
+    if v[0] == "start" and hint:
+        target = max(0, rng.choice(hint) + rng.choice([-1, 0, 0, 1]))
+    else:
+        target = rng.randint(1, 3)
+    return ("count", v, needle, str(target))
 
 
 def gen_body(rng, g, scope, depth):
@@ -213,6 +246,26 @@ def templates(g):
         out.append(("exists", a, S, None, ("exists", b, S, None,
                     ("and", [("sp", "consecutive", [("var", a), ("var", b)]),
                              ("sp", "nth", [("str", "2"), ("var", b), ("var", S)])]))))
+    for k, ty in enumerate(nonterminals(g)[:4]):
+        a, b = ("ua%d" % k, ty), ("ub%d" % k, ty)
+        # uniqueness: all <ty> subtrees are pairwise different strings (position-dependent: a tree with
+        # two structurally identical subtrees must make it FALSE)
+        out.append(("forall", a, S, None, ("forall", b, S, None,
+                    ("or", [("sp", "same_position", [("var", a), ("var", b)]),
+                            ("streq", True, ("var", a), ("var", b))]))))
+        # some string occurs twice, the first occurrence strictly before the second
+        out.append(("exists", a, S, None, ("exists", b, S, None,
+                    ("and", [("sp", "before", [("var", a), ("var", b)]),
+                             ("streq", False, ("var", a), ("var", b))]))))
+    hint = COUNT_HINT.get(id(g), {})
+    for k, ty in enumerate(recursive_nts(g)[:3]):
+        x = ("cx%d" % k, ty)
+        counts = hint.get(ty) or [2]
+        mid = sorted(counts)[len(counts) // 2]
+        # needle = a recursive nonterminal: nested occurrences must be counted
+        out.append(("count", S, ty, str(mid)))
+        out.append(("forall", x, S, None, ("count", x, ty, "1")))
+        out.append(("exists", x, S, None, ("count", x, ty, "2")))
     return out
 
 
@@ -491,13 +544,52 @@ def uses_consecutive(f):
     return False
 
 
-def spec_verdict_code_consecutive(formula, tree, grammar):
+def spec_verdict_code_consecutive(formula, tree, grammar, bound=12):
     """the specification verdict with `consecutive` re-interpreted as the code computes it"""
     spec_sem.PRED_OVERRIDE["consecutive"] = code_consecutive
     try:
-        return spec_verdict(formula, tree, grammar)
+        return spec_verdict(formula, tree, grammar, bound)
     finally:
         spec_sem.PRED_OVERRIDE.pop("consecutive", None)
+
+
+# ---- second strategy: wrap a formula F in a numeric quantifier without changing its meaning ----
+NUMV = L.BoundVariable("n", L.Variable.NUMERIC_NTYPE)
+S2_KINDS = ["ev", "fa", "eu", "e0"]
+
+
+def wrap_numeric(fobj, src, kind, needle):
+    """ev: exists int n: (F and str.to.int(n) >= 0)     fa: forall int n: (F or str.to.int(n) < 0)
+       eu: exists int n: (count(start, needle, n) and F) (n is USED)      e0: exists int n: F
+    returns (isla formula, concrete syntax or None)"""
+    n = z3.StrToInt(z3.String("n"))
+    if kind == "ev":
+        return (L.ExistsIntFormula(NUMV, L.ConjunctiveFormula(fobj, L.SMTFormula(n >= 0, NUMV))),
+                src and f"exists int n: (({src}) and (>= (str.to.int n) 0))")
+    if kind == "fa":
+        return (L.ForallIntFormula(NUMV, L.DisjunctiveFormula(fobj, L.SMTFormula(n < 0, NUMV))),
+                src and f"forall int n: (({src}) or (< (str.to.int n) 0))")
+    if kind == "eu":
+        return (L.ExistsIntFormula(NUMV, L.ConjunctiveFormula(
+                    L.SemanticPredicateFormula(COUNT_PREDICATE, START, needle, NUMV), fobj)),
+                src and f'exists int n: (count(start, "{needle}", n) and ({src}))')
+    return L.ExistsIntFormula(NUMV, fobj), src and f"exists int n: ({src})"
+
+
+def has_duplicate_subtrees(t):
+    """two different nonterminal nodes with children that are structurally identical"""
+    seen = set()
+
+    def key(n):
+        k = (n.value, None if n.children is None else tuple(key(c) for c in n.children))
+        return k
+    for _, n in spec_sem.nodes(t):
+        if n.children and L.is_nonterminal(n.value):
+            k = key(n)
+            if k in seen:
+                return True
+            seen.add(k)
+    return False
 
 
 def is_wide(tree):
@@ -609,10 +701,12 @@ def run(run):
     known_by_class = {e["class"]: e for e in known}
 
     n_formulas = 40 if thorough else 8          # per grammar
-    n_trees = 20 if thorough else 9             # per grammar
+    n_trees = 20 if thorough else 8             # per grammar
     shards, smeta = [], []
     hist = {"TT": 0, "FF": 0, "UU": 0, "raise": 0, "with_mexpr": 0, "concrete_syntax": 0, "direct": 0,
-            "strategy2_numeric": 0, "unencodable": 0, "wide_tree_cases": 0}
+            "strategy2_numeric": 0, "strategy2_on_duplicate_subtrees": 0, "strategy2_unknown": 0,
+            "unencodable": 0, "wide_tree_cases": 0}
+    s2_keys = []
     verdicts_per_formula = {}
     spec_failures = []      # impl departs from spec (candidates)
     for gname, g in GRAMMARS.items():
@@ -629,6 +723,8 @@ def run(run):
                 except Exception:
                     pass
             trees.append(t)
+        COUNT_HINT[id(g)] = {nt: [sum(1 for _, n in spec_sem.nodes(t) if n.value == nt) for t in trees]
+                             for nt in nonterminals(g)}
         formulas = templates(g)
         counter = [0]
         n_total = n_formulas + len(formulas)
@@ -712,6 +808,48 @@ def run(run):
                     shards.append((CST_DEF + defs, cs))
                     smeta.append(ms)
 
+        # ---- second strategy (eliminate_quantifiers + one validity query): every directly built
+        # formula of this grammar wrapped in a meaning-preserving numeric quantifier, on every tree;
+        # compared with the specification of the WRAPPED formula (spec_sem, numerals < bound)
+        needle0 = nonterminals(g)[0]
+        s2_forms = []
+        for (fi, how, ast, src, fobj, solver) in compiled:
+            if how != "direct":
+                continue
+            kind = S2_KINDS[fi % len(S2_KINDS)]
+            w, wsrc = wrap_numeric(fobj, None if has_mexpr(ast) else unparse(ast), kind, needle0)
+            try:
+                wsolver = ISLaSolver(g, w)
+            except Exception as e:
+                wsolver = e
+            s2_forms.append((fi, kind, w, wsrc, wsolver))
+        for ti, t in enumerate(trees):
+            dups = has_duplicate_subtrees(t)
+            bound_used = COUNT_HINT[id(g)][needle0][ti] + 2
+            for (fi, kind, w, wsrc, wsolver) in s2_forms:
+                ev = impl_evaluate(w, t, g)
+                ck = impl_check(wsolver, t) if not isinstance(wsolver, Exception) else ("raise", lib.exn_name(wsolver))
+                bound = bound_used if kind == "eu" else 2
+                sp = spec_verdict(w, t, g, bound)
+                key = (gname, fi, "strategy2-" + kind)
+                verdicts_per_formula.setdefault(key, set()).add(sp)
+                hist["strategy2_numeric"] += 1
+                hist["strategy2_on_duplicate_subtrees"] += dups
+                if ev == ("ok", "UU"):
+                    # Z3 did not decide the remaining quantified query within isla's 500 ms budget:
+                    # outside the property ("when Z3 can decide"); counted, bounded below
+                    hist["strategy2_unknown"] += 1
+                    continue
+                hist[ev[1] if ev[0] == "ok" else "raise"] += 1
+                s2_keys.append((key, str(t)))
+                if not agrees_with_spec(ev, ck, sp):
+                    spec_failures.append({
+                        "grammar": gname, "tree": tree_json(t), "input": str(t), "formula": str(w), "source": wsrc,
+                        "how": "strategy2-" + kind, "evaluate": ev, "check": ck, "spec": sp, "key": key,
+                        "wide": False, "keps": py_keps(w, g),
+                        "kcons": (uses_consecutive(w)
+                                  and agrees_with_spec(ev, ck, spec_verdict_code_consecutive(w, t, g, bound)))})
+
     t_3 = time.time()
     # numeric quantifiers: second strategy (eliminate_quantifiers + Z3), checked against the spec only
     num_forms = [
@@ -753,6 +891,11 @@ def run(run):
     for ms in smeta:
         for m in ms:
             run.count((m["key"], m["input"]), m["key"] in nonconst)
+    for (k, inp) in s2_keys:
+        run.count((k, inp), k in nonconst)
+    if hist["strategy2_unknown"] * 5 > max(1, hist["strategy2_numeric"]):
+        run.violation({"kind": "more than 20% of the second-strategy cases are UNKNOWN", "histogram": hist,
+                       "obligation": "harness/c03.py second-strategy stream"}, found_input=False)
     for k, vs in verdicts_per_formula.items():
         if k[2] == "numeric":
             for i, _ in enumerate(vs):
